@@ -131,6 +131,18 @@ def opSAN (args res : List String) : Findings := Id.run do
       if impl != "ERR" then fs := fs.push (fO "san" s!"{String.ofList txt} fits no legal move or several, got {impl}")
     else if exp != "?" then
       if impl != s!"OK {exp}" then fs := fs.push (fO "san" s!"{String.ofList txt} denotes {exp}, got {impl}")
+    -- castling text (one optional trailing + or #) denotes the castling move, or nothing
+    let ct := match txt.getLast? with | some '+' => txt.dropLast | some '#' => txt.dropLast | _ => txt
+    if ct == "O-O".toList ∨ ct == "O-O-O".toList then
+      let r : Int := p.stm.homeRank
+      match Chess.sq? 4 r, Chess.sq? (if ct == "O-O".toList then 6 else 2) r with
+      | some e, some t =>
+        let cm : Move := ⟨e, t, none⟩
+        if legal p cm && isCastle p cm then
+          if impl != s!"OK {showMv cm}" then fs := fs.push (fO "san" s!"{String.ofList txt} denotes castling {showMv cm}, got {impl}")
+        else if impl != "ERR" then
+          fs := fs.push (fO "san" s!"{String.ofList txt}: castling is not legal here, so the text denotes no legal move, got {impl}")
+      | _, _ => pure ()
     match res with
     | ["OK", ms] =>
       match move? ms with
